@@ -263,6 +263,7 @@ class World:
     """One execution: loop + net + server + gates + chooser, driven to completion by run()."""
 
     STEP_CAP = 400_000
+    STORM = 300  # environment steps at one virtual instant before deliveries start to cost a network round trip
     BUSY_CAP = 30_000  # consecutive loop iterations without ever going quiescent: a task spinning without waiting
 
     def __init__(self, scn, chooser, trace=False):
@@ -351,6 +352,7 @@ class World:
             self.scn.setup(self)
             steps = 0
             stuck_since = (loop._vtime, 0)
+            storm, storm_t0 = 0, loop._vtime - loop.iterations * 1e-6
             busy = 0
             while not self.main_task.done():
                 steps += 1
@@ -359,8 +361,9 @@ class World:
                     break
                 busy += 1
                 if loop._ready or self._timer_due():
-                    rp = self.p_enabled and not self.frozen and chooser.remaining("p") > 0
-                    rk = self.k_mid and not self.frozen and chooser.remaining("k") > 0
+                    calm = not self.frozen and storm <= self.STORM
+                    rp = self.p_enabled and calm and chooser.remaining("p") > 0
+                    rk = self.k_mid and calm and chooser.remaining("k") > 0
                     if rp or rk:
                         # mid-cascade boundary: with p budget any event may be injected here; with k_mid a kill/stop/flush may be
                         # placed here at the cost of k alone ("at any point of the run", not only when every task is waiting)
@@ -378,7 +381,9 @@ class World:
                 alts = self.enabled(True)
                 if not alts:
                     raise Deadlock(f"no enabled event at t={self.now()} and main task not finished")
-                j = 0 if self.frozen else chooser.choose(alts, quiescent=True)
+                # inside a request storm (see below) the environment is canonical: branching on each of thousands of
+                # identical round trips would multiply executions without reaching new behaviour
+                j = 0 if (self.frozen or storm > self.STORM) else chooser.choose(alts, quiescent=True)
                 if len(alts) > 1:
                     self.digests.add(self._digest())
                 self.transitions += 1
@@ -386,6 +391,20 @@ class World:
                     self.last_dev_t = self.now()
                 self.log("choose", alts[j].label)
                 alts[j].fn()
+                # Deliveries are instantaneous in the model. Code that answers every reply with a new request at once (a
+                # metadata refresh storm while a partition is leaderless, a fetch retried at a stale leader) would then
+                # run for ever at one virtual instant although in reality it is paced by the network round trip. After
+                # STORM back-to-back environment steps without the clock moving, every further delivery takes 1 ms until a
+                # timer fires (the storm is over when the system waits for time again).
+                real_t = loop._vtime - loop.iterations * 1e-6  # the clock without the 1 us tick every loop iteration adds
+                if alts[j].kind == "t":
+                    storm = 0
+                    storm_t0 = real_t
+                elif real_t - storm_t0 < 1e-5:
+                    storm += 1
+                    if storm > self.STORM:
+                        loop._vtime += 1e-3
+                        storm_t0 = real_t + 1e-3
                 # livelock guard: virtual time must make real progress
                 if loop._vtime - stuck_since[0] > 1e-3:
                     stuck_since = (loop._vtime, steps)
